@@ -1992,6 +1992,85 @@ def _wt_power(e, power, wloc):
 
 
 # ----------------------------------------------------------------------------
+# per-instance state that is mutated in place is created per instance
+# ----------------------------------------------------------------------------
+MUTATORS = {"append", "extend", "update", "setdefault", "insert", "add", "pop", "clear", "remove", "popitem"}
+
+
+def _is_mutable_literal(v):
+    return isinstance(v, (ast.Dict, ast.List, ast.Set)) or (
+        isinstance(v, ast.Call) and pf.call_name(v) in ("dict", "list", "set", "collections.defaultdict", "defaultdict",
+                                                        "collections.OrderedDict", "OrderedDict") )
+
+
+def rule_instance_state(chk, prog):
+    # attributes mutated in place anywhere in train.py / dft_kernel.py: <obj>.<attr>[k] = v, <obj>.<attr>.append(...)
+    mutated = {}
+    for rel in (TR, DK):
+        mod = prog.module(rel)
+        for n in ast.walk(mod.ast):
+            if isinstance(n, (ast.Assign, ast.AugAssign)):
+                for t in (n.targets if isinstance(n, ast.Assign) else [n.target]):
+                    while isinstance(t, ast.Subscript):
+                        if isinstance(t.value, ast.Attribute):
+                            mutated.setdefault(t.value.attr, n)
+                        t = t.value
+            elif isinstance(n, ast.Call) and isinstance(n.func, ast.Attribute) and n.func.attr in MUTATORS \
+                    and isinstance(n.func.value, ast.Attribute):
+                mutated.setdefault(n.func.value.attr, n)
+    for rel, cname in ((DK, "DFTKernel"), (DK, "DFTKernel2"), (TR, "MOLGP"), (TR, "MOLGP2")):
+        mod = prog.module(rel)
+        cls = mod.cls(cname)
+        mro = prog.mro(mod, cls)
+        class_level = {}
+        for m, c in mro:
+            for k, v in pf.class_attrs(c).items():
+                class_level.setdefault(k, (c, v))
+        init_bound = set()
+        inits = [pf.methods(c).get("__init__") for m, c in mro]
+        # names bound in the constructor chain (the first __init__ found and the ones it reaches by super/Base.__init__)
+        first = next((i for i in inits if i is not None), None)
+        reach = [first] if first is not None else []
+        if first is not None and any(isinstance(x, ast.Call) and isinstance(x.func, ast.Attribute) and x.func.attr == "__init__"
+                                     for x in ast.walk(first)):
+            reach = [i for i in inits if i is not None]
+        for i in reach:
+            for x in ast.walk(i):
+                if isinstance(x, (ast.Assign, ast.AnnAssign)):
+                    for t in (x.targets if isinstance(x, ast.Assign) else [x.target]):
+                        if pf.is_self_attr(t):
+                            init_bound.add(t.attr)
+                if isinstance(x, ast.Call) and isinstance(x.func, ast.Attribute) and isinstance(x.func.value, ast.Name) \
+                        and x.func.value.id == "self":
+                    r = prog.find_method(mod, cls, x.func.attr)
+                    if r is not None:
+                        for y in ast.walk(r[2]):
+                            if isinstance(y, ast.Assign):
+                                for t in y.targets:
+                                    if pf.is_self_attr(t):
+                                        init_bound.add(t.attr)
+        own_attrs = set(class_level) | init_bound
+        for m, c in mro:
+            for fn in pf.methods(c).values():
+                for x in ast.walk(fn):
+                    if pf.is_self_attr(x):
+                        own_attrs.add(x.attr)
+        for attr in sorted(set(mutated) & own_attrs):
+            inst = "%s: self.%s, which is modified in place, is created per instance by the constructor" % (cname, attr)
+            if attr in init_bound:
+                chk.ok("instance-state", inst)
+            elif attr in class_level and _is_mutable_literal(class_level[attr][1]):
+                c, v = class_level[attr]
+                chk.violation("instance-state", rel, cname, "class-level %s = %s" % (attr, pf.src(v)), v.lineno,
+                              "`%s = %s` is a class-level default shared by every instance of %s, the constructor does "
+                              "not rebind it, and it is filled in place (`%s`): all kernels write into the same object, "
+                              "so the covariances/baselines stored for one kernel overwrite those of another"
+                              % (attr, pf.src(v), c.name, pf.src(mutated[attr]).split("\n")[0][:70]), instance=inst)
+            else:
+                chk.ok("instance-state", inst + " (not a shared mutable default)", nontrivial=False)
+
+
+# ----------------------------------------------------------------------------
 def _analyse_own(chk):
     # statement-level helper calls are inlined one level so that the rules see one body per anchored method
     prog = inline.inlined_program(chk.tree, [TR, DK, XE, XE2])
@@ -2039,6 +2118,9 @@ def _analyse_own(chk):
         if c_ is not base and m_.rel == TR and c_ not in targets:
             chk.guard(rule_per_item_memo, GP(prog, m_, c_), True)
     chk.guard(rule_twin_covs, prog)
+    chk.rule("instance-state", "attributes that are modified in place are created per instance, not shared class-level defaults")
+    chk.guard(rule_instance_state, prog)
+    chk.floor("instance-state", 5, "cov/base/dcov/dbase dicts and rxn_cov_list of the kernels, rxn lists and dicts of MOLGP")
     # the kernel objects start with an empty list too
     dk = prog.module(DK)
     for cname in ("DFTKernel", "DFTKernel2"):
@@ -2150,6 +2232,25 @@ def _revert_deriv(i):
     return fn
 
 
+
+def _seed_all_dict(text):
+    a = 'for sysid, count in zip(rxn["structs"], rxn["counts"]):'
+    b = "            rxn_ref = 0\n"
+    if text.count(a) < 2 or b not in text:
+        return None
+    text = text.replace(b, b + '            stoich = dict(zip(rxn["structs"], rxn["counts"]))\n', 1)
+    return text.replace(a, "for sysid, count in stoich.items():")
+
+
+def _seed_class_defaults(text):
+    blk = ("        self.base_dict = {}\n        self.cov_dict = {}\n        self.dbase_dict = {}\n        self.dcov_dict = {}\n")
+    if text.count(blk) < 1 or "class DFTKernel(KernelEvalBase):\n" not in text:
+        return None
+    text = text.replace(blk, "")
+    return text.replace("class DFTKernel(KernelEvalBase):\n",
+                        "class DFTKernel(KernelEvalBase):\n    base_dict = {}\n    cov_dict = {}\n    dbase_dict = {}\n    dcov_dict = {}\n\n", 1)
+
+
 def mutants(tree):
     return [
         Mutant("forget rxn_noise_list in reset", TR, "        self.rxn_noise_list = []\n", "", expect="reset-append"),
@@ -2227,6 +2328,11 @@ def mutants(tree):
                "dbaseline[orb] += np.dot(da * drho_tmp, wt)", expect="twin-covs"),
         Mutant("MOLGP baseline term with weights twice", TR, "dbaseline[orb] += (da[s] * ddesc_tmp).sum()",
                "dbaseline[orb] += np.dot(da[s] * ddesc_tmp, wt).sum()", expect="twin-covs"),
+        Mutant("kernel blocks assembled in xkernels + ckernels order", TR,
+               "        for kernel in self.kernels:\n            Kmm = kernel.get_kctrl()", "        for kernel in self.xkernels + self.ckernels:\n            Kmm = kernel.get_kctrl()",
+               expect="fit-system"),
+        Mutant("all stoichiometry loops through one dict", TR, fn=_seed_all_dict, expect="pairing"),
+        Mutant("per-kernel dicts hoisted to class-level defaults", DK, fn=_seed_class_defaults, expect="instance-state"),
         Mutant("noise block snapshot before the rescaling", TR, fn=_seed_snapshot, expect="fit-snapshot"),
         Mutant("noise not squared", TR, "        noise_nn = noise_nn**2  # get noise covariance from noise std deviation\n", "",
                expect="fit-system"),
